@@ -49,6 +49,29 @@ pub(crate) fn interrupt_due() -> bool {
     POINTS.contains(&n)
 }
 
+/// Schedule perturbation for the nREPL server: sleep at the named
+/// point for the number of milliseconds that the environment variable
+/// `GDN_VERIF_DELAYS` (e.g. `flush_mid=20,dequeue=50`) gives it.
+pub(crate) fn delay_point(name: &str) {
+    lazy_static::lazy_static! {
+        static ref DELAYS: Vec<(String, u64)> = std::env::var("GDN_VERIF_DELAYS")
+            .map(|s| {
+                s.split(',')
+                    .filter_map(|kv| {
+                        let (k, v) = kv.split_once('=')?;
+                        Some((k.trim().to_owned(), v.trim().parse().ok()?))
+                    })
+                    .collect()
+            })
+            .unwrap_or_default();
+    }
+    for (point, ms) in DELAYS.iter() {
+        if point == name && *ms > 0 {
+            std::thread::sleep(std::time::Duration::from_millis(*ms));
+        }
+    }
+}
+
 fn pos_json(p: &Position) -> J {
     json!({
         "s": p.start_offset, "e": p.end_offset,
